@@ -14,16 +14,16 @@ Proof.
   cbn [negb andb]. pose proof (flags_byte_bits a b c d f g h i) as B. cbv zeta in B. tauto.
 Qed.
 
-Lemma read_ebp_comcast c rest : wf_comcast c ->
-  ReadEncoderBoundaryPoint false (ser_comcast c ++ rest) = Ok (Comcast, decoded_comcast c).
+Lemma read_ebp_comcast g c rest : wf_comcast c ->
+  ReadEncoderBoundaryPoint g (ser_comcast c ++ rest) = Ok (Comcast, decoded_comcast c).
 Proof.
-  intro W. unfold ReadEncoderBoundaryPoint. rewrite (decode_ser_comcast c rest W). reflexivity.
+  intro W. unfold ReadEncoderBoundaryPoint. rewrite (decode_ser_comcast g c rest W). reflexivity.
 Qed.
 
-Lemma read_ebp_cablelabs c rest : wf_cablelabs c ->
-  ReadEncoderBoundaryPoint false (ser_cablelabs c ++ rest) = Ok (CableLabs, decoded_cablelabs c).
+Lemma read_ebp_cablelabs g c rest : wf_cablelabs c ->
+  ReadEncoderBoundaryPoint g (ser_cablelabs c ++ rest) = Ok (CableLabs, decoded_cablelabs c).
 Proof.
-  intro W. unfold ReadEncoderBoundaryPoint. rewrite (decode_ser_cablelabs c rest W). reflexivity.
+  intro W. unfold ReadEncoderBoundaryPoint. rewrite (decode_ser_cablelabs g c rest W). reflexivity.
 Qed.
 
 Lemma comcast_body_len_pos c : len (ser_comcast_body c) <> 0.
@@ -134,15 +134,15 @@ Proof.
 Qed.
 
 (* wf b -> Data (decode b) = b, both flavours, through the public entry point *)
-Lemma reencode_comcast_bytes c : wf_comcast c -> exists e,
-  ReadEncoderBoundaryPoint false (ser_comcast c) = Ok (Comcast, e) /\ Data Comcast e = (ser_comcast c, e).
+Lemma reencode_comcast_bytes g c : wf_comcast c -> exists e,
+  ReadEncoderBoundaryPoint g (ser_comcast c) = Ok (Comcast, e) /\ Data Comcast e = (ser_comcast c, e).
 Proof.
   intro W. exists (decoded_comcast c). split.
   - rewrite <- (app_nil_r (ser_comcast c)). apply read_ebp_comcast. exact W.
   - apply reencode_comcast. exact W.
 Qed.
-Lemma reencode_cablelabs_bytes c : wf_cablelabs c -> exists e,
-  ReadEncoderBoundaryPoint false (ser_cablelabs c) = Ok (CableLabs, e) /\ Data CableLabs e = (ser_cablelabs c, e).
+Lemma reencode_cablelabs_bytes g c : wf_cablelabs c -> exists e,
+  ReadEncoderBoundaryPoint g (ser_cablelabs c) = Ok (CableLabs, e) /\ Data CableLabs e = (ser_cablelabs c, e).
 Proof.
   intro W. exists (decoded_cablelabs c). split.
   - rewrite <- (app_nil_r (ser_cablelabs c)). apply read_ebp_cablelabs. exact W.
